@@ -62,3 +62,75 @@ def replay_parse(ctx, payload, oracle):
     bad = oracle(t, impl, y, {"stream": "replay"})
     print("oracle  :", bad or "property holds on this input")
     return 1 if bad else 0
+
+
+def tag_after_optional_positional(t, cmds):
+    """known-finding class KF-C01-2 / KF-C03-1: a tag written after the optional positional argument of one of `cmds`"""
+    import pyref
+    from sievelib.parser import Parser, Lexer
+    toks = []
+    try:
+        for k, val in pyref._orig_scan(Lexer(Parser.lrules), t):
+            if k not in ("hash_comment", "bracket_comment"):
+                toks.append((k, val))
+    except Exception:  # noqa
+        return False
+    for i, (k, val) in enumerate(toks):
+        if k == "identifier" and val.lower().decode() in cmds:
+            seen_pos, depth = False, 0
+            for k2, v2 in toks[i + 1:]:
+                if k2 == "left_bracket":
+                    depth += 1
+                elif k2 == "right_bracket":
+                    depth -= 1
+                    seen_pos = True
+                elif k2 in ("string", "multiline"):
+                    seen_pos = seen_pos or depth == 0
+                elif k2 == "comma" and depth > 0:
+                    pass
+                elif k2 == "number":
+                    pass
+                elif k2 == "tag":
+                    if seen_pos:
+                        return True
+                else:
+                    break
+    return False
+
+
+def trailing_tag_without_param(t, table):
+    """known-finding class KF-C04-1: some command's argument list ENDS with a tag that expects a parameter"""
+    import pyref
+    from sievelib.parser import Parser, Lexer
+    toks = []
+    try:
+        for k, val in pyref._orig_scan(Lexer(Parser.lrules), t):
+            if k not in ("hash_comment", "bracket_comment"):
+                toks.append((k, val))
+    except Exception:  # noqa
+        return False
+    T = {d["name"]: d for d in table}
+    cur = None
+    last_tag = None
+    for k, val in toks:
+        if k == "identifier":
+            if cur is not None and last_tag is not None:
+                return True
+            cur = T.get(val.lower().decode())
+            last_tag = None
+        elif k == "tag" and cur is not None:
+            last_tag = None
+            for a in cur["args"]:
+                vals = (a["values"] or []) + [x for x, _ in a["extValues"]]
+                low = val.lower().decode()
+                if low in vals and a["extra"] and (a["extra"]["validFor"] is None or low in a["extra"]["validFor"]):
+                    last_tag = low
+        elif k in ("semicolon", "left_cbracket", "right_parenthesis", "comma", "left_parenthesis"):
+            if cur is not None and last_tag is not None:
+                return True
+            last_tag = None
+            if k != "left_parenthesis":
+                cur = None
+        else:
+            last_tag = None
+    return False
